@@ -173,6 +173,8 @@ def r07_5(ctx) -> None:
         for t_ in resolve_all(eng, je, r.value):
             m_ = t_.startswith("urlsafe_b64encode(to_bytes(") and t_.endswith(", 'ascii'))")
             inner = t_[len("urlsafe_b64encode(to_bytes("):-len(", 'ascii'))")] if m_ else None
+            if not m_ and t_ in (f"urlsafe_b64encode({DUMP}.encode('ascii'))", f"urlsafe_b64encode({DUMP}.encode('ascii', 'strict'))"):
+                inner = DUMP  # json.dumps returns text: to_bytes(text, 'ascii') is text.encode('ascii', 'strict')
             if inner == DUMP:
                 seen.add("dumps")
             elif inner == pt:
